@@ -75,3 +75,23 @@ Definition c2spec (c : c2case) : nat :=
 (* every sequence the harness drives is node-shaped, so it has to satisfy the discipline predicate as well: a sequence
    that does not would mean the predicate does not describe what the node loops do *)
 Definition c2ok_spec (c : c2case) : bool := c2ok c && Nat.eqb (c2spec c) 1.
+
+(* ---- Tracer.Close at the end of a sequence: the answers handed out during the close, compared per reader (Go walks
+   its map in its own order; the answers are all the dropped-packet error) ---- *)
+Definition c2ccase := (c2case * option (list (nat * pkt)))%type.
+
+Fixpoint final_t (st : tstate) (steps : list (top * tobs)) : tstate :=
+  match steps with [] => st | (op, _) :: r => final_t (t_step st op) r end.
+
+Fixpoint ins_rp (x : nat * pkt) (l : list (nat * pkt)) : list (nat * pkt) :=
+  match l with [] => [x] | y :: t => if Nat.leb (fst x) (fst y) then x :: l else y :: ins_rp x t end.
+Definition sort_rp (l : list (nat * pkt)) : list (nat * pkt) := fold_right ins_rp [] l.
+
+Definition close_ok (c : c2case) (obs : list (nat * pkt)) : bool :=
+  let '(_, _, steps) := c in
+  let st := final_t t_init steps in
+  let new := map (fun a : nat * nat * pkt => (fst (fst a), snd a)) (skipn (length (t_out st)) (t_out (t_close st))) in
+  list_eqb (fun a b : nat * pkt => Nat.eqb (fst a) (fst b) && pkt_eqb (snd a) (snd b)) (sort_rp new) (sort_rp obs).
+
+Definition c2ok_close (c : c2ccase) : bool :=
+  c2ok_spec (fst c) && match snd c with None => true | Some obs => close_ok (fst c) obs end.
